@@ -122,8 +122,8 @@ pub fn panic_message(e: Box<dyn std::any::Any + Send>) -> String {
     }
 }
 
-pub fn close_with(
-    b: &mut NativeRecordDefinitionBuilder<&HostTypeResolver>,
+pub fn close_with<R: truc::record::type_resolver::TypeResolver>(
+    b: &mut NativeRecordDefinitionBuilder<R>,
     strat: Strat,
 ) -> RecordVariantId {
     match strat {
